@@ -147,6 +147,7 @@ typedef struct vh_args {
   int cases;  /* number of cases (0 = family default for the tier) */
 } vh_args_t;
 int vh_run_family(const vh_args_t *a);
+void vh_hooks_install(void);
 /* cases are dealt to shards by a hash of the case index, so that `idx % k` choices inside a family are
  * not correlated with the shard number */
 static inline unsigned long vh_mix(unsigned long x) { x ^= x >> 16; x *= 0x45d9f3bUL; x ^= x >> 13; x *= 0x2c1b3c6dUL; x ^= x >> 16; return x; }
